@@ -12,7 +12,7 @@ TL = "<naive::time::NaiveTime as traits::Timelike>::"
 def run(chk, tier):
     P = Prog("default")
     chk.configs.add("default")
-    for r in (r_boxes, r_delegates, r_with, r_hms, r_offset_copy, r_sub, r_operators, r_datetime_core, r_hour12, r_absint):
+    for r in (r_boxes, r_delegates, r_with, r_hms, r_offset_copy, r_sub, r_operators, r_datetime_core, r_hour12, r_value_map, r_absint):
         chk.guarded(r, P, tier)
     chk.assume("the leap-second stepping rules of overflowing_add_signed / signed_duration_since (which branch applies to which operands) are numerical and not decided")
     return {
@@ -277,3 +277,104 @@ def r_hour12(chk, P, tier):
             got = "unknown: %s" % e
         want = (h >= 12, (h + 11) % 12 + 1)
         chk.expect(got == want or got == (int(want[0]), want[1]), "hour %d" % h, "hour12() of hour %d is %s, expected %s" % (h, got, want), loc=P.loc(fn))
+
+
+# ---- region-representative value map of the leap-second arithmetic -----------------------------------------------------------------------
+NS = 10**9
+DAY = 86400
+TD = "time_delta::TimeDelta"
+
+
+def _nt(secs, frac):
+    return ("agg", "adt", NT, "NaiveTime", (("const", secs), ("const", frac)), 0)
+
+
+def _tdv(n):
+    return ("agg", "adt", TD, "TimeDelta", (("const", n // NS), ("const", n % NS)), 0)
+
+
+def _model_add(secs, frac, d):
+    """documented rule: a leap-second operand lives on a time line on which its own second is followed by one leap second (and no other exists)"""
+    pos = secs * NS + frac
+    if frac >= NS:
+        leap_start = (secs + 1) * NS
+        p2 = pos + d
+        if leap_start <= p2 < leap_start + NS:
+            return (secs, p2 - secs * NS), 0          # stays inside the leap second
+        if p2 >= leap_start + NS:
+            p2 -= NS                                   # leaves it forwards: the leap second is skipped
+    else:
+        p2 = pos + d
+    s2, f2 = p2 // NS, p2 % NS
+    return (s2 % DAY, f2), s2 - s2 % DAY
+
+
+def _model_diff(a, b):
+    leaps = {t[0] for t in (a, b) if t[1] >= NS}
+    ext = lambda t: t[0] * NS + t[1] + NS * sum(1 for l in leaps if l < t[0])    # noqa
+    return ext(a) - ext(b)
+
+
+def r_value_map(chk, P, tier):
+    """overflowing_add_signed / overflowing_sub_signed / signed_duration_since are piecewise-affine in (secs, frac, duration) with pieces delimited by comparisons
+    against 0, 10^9, 2*10^9 and by the wrap at 86 400 s. Their def-use terms are folded (no execution) on a domain holding every such boundary with both neighbours,
+    for ordinary and leap-second operands on ordinary and boundary seconds, against the documented rule written as arithmetic on an extended time line."""
+    from finmap import Folder, show, Unknown
+    chk.rule("MAP.leap_arith", "overflowing_add_signed, overflowing_sub_signed and signed_duration_since folded on all region boundaries (leap and ordinary operands) equal the documented time-line rule", floor=8000)
+    fo = Folder(P, max_depth=10)
+    secs_dom = (0, 1, 59, 60, 3599, 43200, 86398, 86399)
+    frac_dom = (0, 1, 500000000, NS - 1, NS, NS + 1, 1500000000, 2 * NS - 1)
+    times = [(s_, f) for s_ in secs_dom for f in frac_dom]
+    mags = (0, 1, 2, 499999999, 500000000, 500000001, NS - 1, NS, NS + 1, 1500000000, 2 * NS - 1, 2 * NS, 59 * NS, 60 * NS, 61 * NS, (DAY - 1) * NS, DAY * NS - 1, DAY * NS, DAY * NS + 1,
+            (DAY + 1) * NS, 2 * DAY * NS + 7, (2**63 - 1) * 10**6)
+    deltas = sorted({m for m in mags} | {-m for m in mags})
+    bad = {}
+    n_ok = 0
+
+    def show_add(v):
+        # ((NaiveTime, secs, frac), carry)
+        if isinstance(v, tuple) and len(v) == 2 and isinstance(v[0], tuple) and v[0][0] == "NaiveTime::NaiveTime":
+            return (v[0][1], v[0][2]), v[1]
+        return v
+    for fn, sign in (("overflowing_add_signed", 1), ("overflowing_sub_signed", -1)):
+        for (s_, f) in times:
+            for d in deltas:
+                try:
+                    got = show_add(show(fo.call(NT + "::" + fn, [("ref", _nt(s_, f)), _tdv(d)])))
+                except Unknown as e:
+                    got = "unknown: %s" % e
+                want = _model_add(s_, f, sign * d)
+                if sign < 0:
+                    want = (want[0], -want[1])      # the subtraction reports the whole days it ignored with the opposite sign (documented example: 3:04:05 - 17h = (10:04:05, +86400))
+                if got == want:
+                    n_ok += 1
+                else:
+                    cls = "%s: %s operand, %s duration" % (fn, "leap-second" if f >= NS else "ordinary", "zero" if d == 0 else ("positive" if d > 0 else "negative"))
+                    bad.setdefault(cls, ((s_, f), d, got, want))
+    for a in times:
+        for b in times:
+            try:
+                v = show(fo.call(NT + "::signed_duration_since", [_nt(*a), _nt(*b)]))
+                got = v[1] * NS + v[2] if isinstance(v, tuple) and v[0] == "TimeDelta::TimeDelta" and 0 <= v[2] < NS else v
+            except Unknown as e:
+                got = "unknown: %s" % e
+            want = _model_diff(a, b)
+            if got == want:
+                n_ok += 1
+            else:
+                cls = "signed_duration_since: %s - %s, %s" % ("leap" if a[1] >= NS else "ordinary", "leap" if b[1] >= NS else "ordinary", "later - earlier" if a[0] > b[0] else ("earlier - later" if a[0] < b[0] else "same second"))
+                bad.setdefault(cls, (a, b, got, want))
+    for _ in range(n_ok):
+        chk.ok("value")
+    for cls, (a, b, got, want) in sorted(bad.items()):
+        chk.bad(cls, "%s: (secs, frac) = %s with %s folds to %s, the documented rule gives %s" % (cls, a, b, got, want), loc=P.loc(NT + "::" + cls.split(":")[0]))
+    # side condition: the pieces are delimited by the constants the domain was built from
+    from rules import consts_in_fn
+    known = {0, 1, NS, 2 * NS, DAY, 2, 3, 4, 8, 16, 31, 32, 63, 64, 2**31, 2**63, -(2**31), -(2**63), 2**31 - 1, 2**63 - 1, 2**32 - 1}
+    known |= {c + d for c in list(known) for d in (-1, 1)}
+    extra = {}
+    for fn in ("overflowing_add_signed", "overflowing_sub_signed", "signed_duration_since"):
+        for c in consts_in_fn(P, NT + "::" + fn):
+            if isinstance(c, int) and not isinstance(c, bool) and c not in known:
+                extra.setdefault(c, fn)
+    chk.expect(not extra, "piece boundaries", "constants %s occur in the folded functions but are not boundaries of the evaluated domain (extend the domain)" % (sorted(extra.items())[:6],), loc=P.loc(NT + "::overflowing_add_signed"))
